@@ -1,23 +1,31 @@
 #!/bin/bash
 # tools_benign_refactors.sh: apply every stored behaviour-preserving refactor (written by independent agents that saw
-# nothing of /verif) in a scratch worktree under /tmp and run all checks on it. Every finding is a false alarm.
-# benign_refactors/EXPECTED_ALARMS lists the ones that are known and documented in DESIGN.md.
+# nothing of /verif) in scratch worktrees under /tmp (6 in parallel) and run all checks on it. Every finding is a false
+# alarm. benign_refactors/EXPECTED_ALARMS lists the ones that are known and documented in DESIGN.md.
 set -u
 export GOFLAGS=-mod=mod GOPROXY=off
-WT=/tmp/wt-benignref-$$
-git -C /repo worktree add -q --detach "$WT" HEAD || exit 2
-trap 'git -C /repo worktree remove --force "$WT" >/dev/null 2>&1' EXIT
-n=0; alarms=0; unexpected=0
-for d in /verif/benign_refactors/*/; do
-  id=$(basename "$d"); n=$((n+1))
-  if ! git -C "$WT" apply "$d/patch.diff" 2>/dev/null; then echo "$id: PATCH-DOES-NOT-APPLY"; unexpected=$((unexpected+1)); continue; fi
-  if ! (cd "$WT" && go build ./... >/dev/null 2>&1); then echo "$id: DOES-NOT-BUILD"; unexpected=$((unexpected+1)); fi
-  out=$(/verif/bin/crdcheck -p all -repo "$WT" -noevidence 2>&1 | grep '^FINDING' | sed 's/.*rule=\([A-Z0-9-]*\) kind=\([a-z]*\) construct="\([^"]*\)".*/\1:\3/' | sort -u | tr '\n' ' ')
-  git -C "$WT" checkout -q -- . ; git -C "$WT" clean -fdq
-  if [ -n "$out" ]; then
-    alarms=$((alarms+1))
-    if grep -q "^$id\b" /verif/benign_refactors/EXPECTED_ALARMS 2>/dev/null; then echo "$id: known false alarm: $out"; else echo "$id: FALSE ALARM: $out"; unexpected=$((unexpected+1)); fi
-  fi
-done
+J=6
+worker() {
+  k=$1; WT=/tmp/wt-benignref-$$-$k
+  git -C /repo worktree add -q --detach "$WT" HEAD || exit 2
+  i=0
+  for d in /verif/benign_refactors/*/; do
+    i=$((i+1)); [ $((i % J)) -eq $k ] || continue
+    id=$(basename "$d")
+    if ! git -C "$WT" apply "$d/patch.diff" 2>/dev/null; then echo "$id: PATCH-DOES-NOT-APPLY"; continue; fi
+    if ! (cd "$WT" && go build ./... >/dev/null 2>&1); then echo "$id: DOES-NOT-BUILD"; fi
+    out=$(/verif/bin/crdcheck -p all -repo "$WT" -noevidence 2>&1 | grep '^FINDING' | sed 's/.*rule=\([A-Z0-9-]*\) kind=\([a-z]*\) construct="\([^"]*\)".*/\1:\3/' | sort -u | tr '\n' ' ')
+    git -C "$WT" checkout -q -- . ; git -C "$WT" clean -fdq
+    if [ -n "$out" ]; then
+      if grep -q "^$id\b" /verif/benign_refactors/EXPECTED_ALARMS 2>/dev/null; then echo "$id: known false alarm: $out"; else echo "$id: FALSE ALARM: $out"; fi
+    else echo "$id: silent"; fi
+  done
+  git -C /repo worktree remove --force "$WT" >/dev/null 2>&1
+}
+for k in $(seq 0 $((J-1))); do worker $k > /tmp/benignref-$$-$k.out & done
+wait
+cat /tmp/benignref-$$-*.out | sort -V > /tmp/benignref-$$.all; rm -f /tmp/benignref-$$-*.out
+grep -v ": silent" /tmp/benignref-$$.all
+n=$(wc -l < /tmp/benignref-$$.all); alarms=$(grep -vc ": silent" /tmp/benignref-$$.all); unexpected=$(grep -c -E "FALSE ALARM|DOES-NOT|PATCH-DOES" /tmp/benignref-$$.all); rm -f /tmp/benignref-$$.all
 echo "$n benign refactors, $alarms with findings, $unexpected unexpected"
-[ $unexpected -eq 0 ]
+[ "$unexpected" -eq 0 ]
